@@ -130,6 +130,20 @@ def run(ck):
                "the packing could not be followed bit by bit (unknown parts: %s, duplicated bits: %s)" % (unk, dup)), f.loc())
         small = isinstance(v, tuple) and all(isinstance(e, list) and all(b == 0 for b in e[31:32]) for e in v[1])
         ck.ob("CMP", f.path, "components-below-2^31", small, "bit 31 of every component is zero (checked_harden never refuses them)" if small else "a component can reach 2^31", f.loc())
+    # windowed multi-exponentiation recodes scalars with exact machine arithmetic: carries propagate, nothing saturates (the
+    # equality multiexp = sum of scalar multiples itself is value-level and not decided here)
+    cb_ = crate("rs", CB)
+    nme = 0
+    for p0 in sorted(cb_.paths()):
+        if not re.search(r"curve_arithmetic::GenericMultiExp<.*> as .*MultiExp>::(multiexp|new)$|curve_arithmetic::GenericMultiExp::<.*>::new$|curve_arithmetic::multiexp[a-z_]*$", p0) or re.search(r"::tests?::", p0):
+            continue
+        for b in cb_.get_all(p0):
+            f = Fn(b)
+            nme += 1
+            sat = f.calls(r"::saturating_[a-z_]+$|::clamp$")
+            ck.ob("CALLEE", p0, "digit-recoding-without-saturating-arithmetic", not sat,
+                  "no saturating/clamping integer operation" if not sat else "%s in the scalar recoding: at the saturation point a carry is lost and the result is off by a multiple of the base" % sat[0][1]["f"]["name"], f.loc(sat[0][0]) if sat else f.loc(), nontrivial=False)
+    ck.floor("CALLEE", "multi-exponentiation functions", nme, 2)
     # threshold sharing: the polynomial has degree EXACTLY threshold - 1, i.e. its highest coefficient is sampled non-zero
     # (with a zero leading coefficient fewer than threshold shares already determine the secret)
     f = getfn(ck, "rs", CB, CB + "::id::secret_sharing::share")
